@@ -26,3 +26,9 @@ Example C12_plain_store_was_refuted :
   let sstep' s o := match o with SSched => ScheduledToFinish | _ => sstep s o end in
   ended (fold_left sstep' [SStart; SFinish; SSched] NotStarted) = false.
 Proof. reflexivity. Qed.
+
+(* a Uni's close callback (latched over its MAX_STREAMS executors) runs exactly once, when the last executor has finished *)
+Theorem C12_uni_close_callback_once_after_all_executors :
+  forall M, (0 < M)%nat -> latch_run M M = repeat false (M - 1) ++ [true].
+Proof. exact latch_fires_exactly_once_at_the_last. Qed.
+Print Assumptions C12_uni_close_callback_once_after_all_executors.
